@@ -19,8 +19,12 @@ def crash(K, E, **kw):
     p.update(kw)
     return p
 
+SCHED = {"HarnessCrash", "HarnessClose", "HarnessNonBlocking", "HarnessFault", "HarnessNoFalseAlarm", "HarnessDetect"}
+
 def H(fn, params=None, shards=1, depth=5, timeout="10m", pkg="harness/hwal", **kw):
     d = {"pkg": pkg, "fn": fn, "params": params or {}, "shards": shards, "sharddepth": depth, "timeout": timeout}
+    if fn in SCHED:
+        d["sched"] = True  # background goroutines: native event order may differ from the engine's schedule
     d.update(kw)
     return d
 
@@ -245,15 +249,15 @@ checks["C19"] = dict(
 
 checks["C09"] = dict(
     runs=dict(
-        quick=[H("HarnessFormatWrite", {"maxplen": 9, "limit": 160}, pkg="harness/hseg", shards=8, depth=4),
+        quick=[H("HarnessFormatWrite", {"maxplen": 9, "limit": 120}, pkg="harness/hseg", shards=8, depth=4),
                H("HarnessFormatRead", {"maxplen": 3}, pkg="harness/hseg", shards=4, depth=4),
                H("HarnessGolden", {}, pkg="harness/hseg")],
-        thorough=[H("HarnessFormatWrite", {"maxplen": 9, "limit": 160, "maxbatches": 3}, pkg="harness/hseg", shards=28, depth=5, timeout="30m"),
+        thorough=[H("HarnessFormatWrite", {"maxplen": 9, "limit": 136, "maxbatches": 3}, pkg="harness/hseg", shards=28, depth=5, timeout="30m"),
                   H("HarnessFormatWrite", {"maxplen": 9, "limit": 4096, "maxbatches": 2}, pkg="harness/hseg", shards=8, depth=4),
                   H("HarnessFormatRead", {"maxplen": 9}, pkg="harness/hseg", shards=28, depth=5, timeout="30m"),
                   H("HarnessGolden", {}, pkg="harness/hseg")]),
     required_reach=["format-write-checked", "force-sealed", "sealed-by-size", "format-read-checked", "read-sealed", "read-tail", "golden-checked"],
-    bounds=dict(quick="1..2 batches of 1..2 entries, payload lengths 0..9 (every padding residue) with symbolic bytes, BaseIndex/SegmentID/Codec 64-bit symbolic, sealing by size (160-byte limit) or ForceSeal or not at all; reader side: reference images of 1..2 batches, payloads 0..3 bytes, sealed and unsealed; golden directory written by the pinned version",
+    bounds=dict(quick="1..2 batches of 1..2 entries, payload lengths 0..9 (every padding residue) with symbolic bytes, BaseIndex/SegmentID/Codec 64-bit symbolic, sealing by size (120-byte limit) or ForceSeal or not at all; reader side: reference images of 1..2 batches, payloads 0..3 bytes, sealed and unsealed; golden directory written by the pinned version",
                 thorough="up to 3 batches; reader payloads 0..9 bytes"),
     assumptions=["ideal CRC (the commit CRC is compared as the checksum of the same byte sequence, collision-free); castagnoliTable is created by crc32.MakeTable(crc32.Castagnoli) (checked concretely by the stub)",
                  "README ambiguity: the first commit's CRC covers the file header (README says 'all bytes appended since the last fsync' and also 'just after the file header'; the pinned behaviour and golden files include the header)"],
@@ -263,7 +267,7 @@ checks["C09"] = dict(
 
 checks["C11"] = dict(
     runs=dict(
-        quick=[H("HarnessDecode", {"maxlen": 9}, pkg="harness/hcodec", shards=8, depth=4),
+        quick=[H("HarnessDecode", {"maxlen": 8}, pkg="harness/hcodec", shards=8, depth=4),
                H("HarnessDecodeMutated", {}, pkg="harness/hcodec", shards=14, depth=4),
                H("HarnessGarbageTail", {"maxchunks": 7}, pkg="harness/hseg", shards=4, depth=4),
                H("HarnessGarbageSealed", {"maxchunks": 5}, pkg="harness/hseg", shards=8, depth=4),
@@ -275,13 +279,31 @@ checks["C11"] = dict(
                   H("HarnessGarbageSealed", {"maxchunks": 8}, pkg="harness/hseg", shards=28, depth=5, timeout="30m"),
                   H("HarnessDump", {"maxchunks": 10}, pkg="harness/hseg", shards=8, depth=4),
                   H("HarnessOpenDamaged", {}, pkg="harness/hseg")]),
-    required_reach=["decoded-ok", "decode-error", "mutated-decoded", "garbage-tail-checked", "garbage-sealed-checked", "dump-checked", "open-failed", "sealed-missing", "sealed-truncated", "sealed-foreign-header"],
-    bounds=dict(quick="Decode of every buffer of <=9 symbolic bytes and of a valid encoding with one symbolic byte overwritten / truncated anywhere; tail and sealed segment files of <=56 / <=40 arbitrary (symbolic) bytes under arbitrary SegmentInfo (MinIndex, MaxIndex, IndexStart, SizeLimit symbolic), DumpSegment over <=56 arbitrary bytes; wal.Open with a sealed segment missing / truncated below its header / carrying another segment's header / one header byte changed / arbitrary metadata fields / one I/O fault, asserting error + released handles",
+    required_reach=["decode-error", "mutated-decoded", "garbage-tail-checked", "garbage-sealed-checked", "dump-checked", "open-failed", "sealed-missing", "sealed-truncated", "sealed-foreign-header"],
+    bounds=dict(quick="Decode of every buffer of <=8 symbolic bytes and of a valid encoding with one symbolic byte overwritten / truncated anywhere; tail and sealed segment files of <=56 / <=40 arbitrary (symbolic) bytes under arbitrary SegmentInfo (MinIndex, MaxIndex, IndexStart, SizeLimit symbolic), DumpSegment over <=56 arbitrary bytes; wal.Open with a sealed segment missing / truncated below its header / carrying another segment's header / one header byte changed / arbitrary metadata fields / one I/O fault, asserting error + released handles",
                 thorough="Decode buffers <=12 bytes, files <=80 / <=64 bytes"),
     assumptions=COMMON_ASSUME + ["panics are the engine's implicit Go checks (index, slice bounds, nil dereference, division) made feasible by the solver; hangs are bounded by the per-path instruction budget (20M instructions: an unwinding failure is reported, not passed)"],
     outside=["larger arbitrary files", "allocation sizes read from a frame header with more than 64 feasible values end the path as cut (the code bounds them by MaxEntrySize before allocating; counted in evidence)", "arbitrary bytes in wal-meta.db itself (bbolt)"],
     level_text="Bounded symbolic execution of the real decoder, tail recovery, sealed reader, dump utility and Open over arbitrary (symbolic) file contents and metadata; every Go runtime check is a solver query",
     level_note="bounded file sizes; ideal CRC")
+
+checks["C15"] = dict(
+    runs=dict(
+        quick=[H("HarnessSizes", {"center": 0, "width": 20, "seg": 256}, shards=2, depth=2),
+               H("HarnessSizes", {"center": 170, "width": 100, "seg": 256}, shards=6, depth=2),
+               H("HarnessSizes", {"center": 65490, "width": 40, "seg": 1048576}, shards=6, depth=2)],
+        thorough=[H("HarnessSizes", {"center": 0, "width": 64, "seg": 256}, shards=4, depth=2),
+                  H("HarnessSizes", {"center": 150, "width": 200, "seg": 256}, shards=10, depth=2),
+                  H("HarnessSizes", {"center": 0, "width": 200, "seg": 64}, shards=10, depth=2),
+                  H("HarnessSizes", {"center": 65440, "width": 140, "seg": 1048576}, shards=14, depth=2, timeout="30m"),
+                  H("HarnessSizes", {"center": 65490, "width": 40, "seg": 65536}, shards=6, depth=2, timeout="30m")]),
+    required_reach=["sizes-checked"],
+    bounds=dict(quick="Data lengths 0..19 (every padding residue), 170..269 with 256-byte segments (segment size +/- frame overhead, entries larger than a whole segment), 65490..65529 (encoded frame on both sides of the 64 KiB read buffer); batch shapes [big], [small,big], [big,small]; contents symbolic at first/last/boundary positions; read back live, after the next append and after reopen",
+                thorough="wider windows, 64-byte and 64 KiB segments"),
+    assumptions=COMMON_ASSUME + ["sizes are enumerated (one path per size in the window), contents symbolic only at marked positions: list-mode byte arrays"],
+    outside=["the 64 MiB +/- 1 neighbourhood and everything between the windows: symbolic-length byte arrays (SMT array mode) are not built and 2^26-element list arrays are out of reach; by reading, lengths above MaxEntrySize are acknowledged and then unreadable (ErrTooBig is declared and never returned) - not demonstrated by this check", "batches above 2^31 bytes"],
+    level_text="Bounded symbolic execution of StoreLogs/GetLog through the real WAL, segment writer and reader for every size in the stated windows; the solver decides equality of what is read with what was written for all contents",
+    level_note="size windows enumerated, not symbolic; 64 MiB boundary not covered")
 
 json.dump(checks, open(os.path.join(ROOT, "checks.json"), "w"), indent=1)
 print("checks:", sorted(checks))
